@@ -96,7 +96,21 @@ func runC05(rc *RunCtx) {
 	devSeed := uint64(t.Choose(1 << 30))
 	asciiEvery := []int{0, 2, 5}[t.Choose(3)]
 
-	b := modbus.NewRequestBuilder("", 0).AddAll(fields)
+	// fields may be added in two stages with requests built in between (a builder is a reusable, growing description)
+	b := modbus.NewRequestBuilder("", 0)
+	if stage := t.Choose(len(fields) + 1); stage > 0 && stage < len(fields) && t.Chance(1, 3) {
+		b.AddAll(fields[:stage])
+		if holding {
+			b.ReadHoldingRegistersTCP()
+			b.ReadHoldingRegistersRTU()
+		} else {
+			b.ReadInputRegistersTCP()
+			b.ReadInputRegistersRTU()
+		}
+		b.AddAll(fields[stage:])
+	} else {
+		b.AddAll(fields)
+	}
 	var reqs []modbus.BuilderRequest
 	var berr error
 	build := func() ([]modbus.BuilderRequest, error) {
